@@ -315,7 +315,8 @@ src_search<T, ES> &src_search<T, ES>::validation_strategy(validator_id id)
     break;
 
   case validator_id::holdout:
-    search<T, ES>::template validation_strategy<holdout_validation>(prob());
+    search<T, ES>::template validation_strategy<holdout_validation>(
+      prob(), this->eva1_.get());
     break;
 
   default:
